@@ -187,6 +187,9 @@ func (impl Implementation) Dhseqr(job lapack.SchurJob, compz lapack.SchurComp, n
 		panic(shortWi)
 	}
 
+	// The paths that do not call Dlaqr04 must also report a workspace size.
+	work[0] = float64(max(1, n))
+
 	const (
 		// Matrices of order ntiny or smaller must be processed by
 		// Dlahqr because of insufficient subdiagonal scratch space.
